@@ -10,8 +10,34 @@
 static char *spell(int k) { switch (k) { case 0: return "#"; case 1: return "if"; case 2: return "ifdef"; case 3: return "ifndef"; case 4: return "elif"; case 5: return "else"; case 6: return "endif"; default: return "x"; } }
 static int slen(int k) { switch (k) { case 0: return 1; case 1: return 2; case 2: return 5; case 3: return 6; case 4: return 4; case 5: return 4; case 6: return 5; default: return 1; } }
 Token T[NT + 1]; int K[NT + 1];
+// equal(tok, s) <=> the token's spelling is s: ghost version over the token alphabet (the real tokenize.c equal is a
+// memcmp of the spelling; it is not part of this unit).  Keeps the spelling pointers out of the solver.
+static int code(char *op) {   /* op is always one of the literals below */
+  if (op[0] == '#') return 0;
+  if (op[0] == 'i') return op[2] == 0 ? 1 : op[2] == 'd' ? 2 : 3;       /* if / ifdef / ifndef */
+  if (op[0] == 'e') return op[1] == 'n' ? 6 : op[2] == 'i' ? 4 : 5;     /* endif / elif / else */
+  return 99;
+}
+bool equal(Token *tok, char *op) { int i = (int)(tok - T); return i >= 0 && i <= NT && K[i] == code(op); }
 int nondet_int_(void); _Bool nondet_bool_(void);
 static _Bool hash_at(int i) { return i < NT && K[i] == 0 && T[i].at_bol; }
+// spec of skip_cond_incl2: from position i inside a nested conditional, the position just after the #endif that closes
+// it (nested conditionals inside are matched by a depth counter); NT (the EOF token) if it is never closed.
+static int spec2(int i) {
+  int depth = 0;
+  for (int step = 0; step <= NT + 1; step++) {
+    if (i >= NT) return NT;
+    if (hash_at(i) && i + 1 < NT && (K[i + 1] == 1 || K[i + 1] == 2 || K[i + 1] == 3)) { depth++; i += 2; continue; }
+    if (hash_at(i) && i + 1 < NT && K[i + 1] == 6) { if (depth == 0) return i + 2; depth--; i += 2; continue; }
+    if (hash_at(i) && i + 1 == NT) { i++; continue; }
+    i++;
+  }
+  return NT;
+}
+static Token *skip_cond_incl2(Token *tok)
+__CPROVER_requires(tok >= &T[0] && tok <= &T[NT])
+__CPROVER_assigns()
+__CPROVER_ensures(__CPROVER_return_value == &T[spec2((int)(tok - T))]);
 void harness(void) {
   for (int i = 0; i < NT; i++) {
     int k = nondet_int_(); ASSUME(0 <= k && k <= 7); K[i] = k;
@@ -19,23 +45,24 @@ void harness(void) {
     T[i].at_bol = nondet_bool_(); T[i].next = &T[i + 1];
   }
   K[NT] = 7; T[NT] = (Token){0}; T[NT].kind = TK_EOF; T[NT].at_bol = 1; T[NT].loc = ""; T[NT].len = 0; T[NT].next = 0;
-#if FN == 0
+#if FN == 2
+  (void)spec2(0);
+  IN(int, start); ASSUME(0 <= start && start <= NT);
+  skip_cond_incl2(&T[start]);
+  REACH("returns");
+#elif FN == 0
   // skip_line: the first token at or after tok that begins a line (tokens before it on the directive line are ignored)
   int want = 0; while (want < NT && !T[want].at_bol) want++;
   Token *r = skip_line(&T[0]);
   REACH("returns");
   OBLIGE(r == &T[want], "C10.1 trailing tokens on a directive line are skipped up to the next line start");
 #else
-  // spec scanner for skip_cond_incl: stop at the first #elif/#else/#endif at nesting depth 0; nested conditionals skipped
-  int i = 0, depth = 0, want = NT;
-  for (int step = 0; step <= NT; step++) {
+  // spec for skip_cond_incl: stop at the first #elif/#else/#endif at nesting depth 0; a nested conditional is skipped whole (spec2)
+  int i = 0, want = NT;
+  for (int step = 0; step <= NT + 1; step++) {
     if (i >= NT) { want = NT; break; }
-    if (hash_at(i) && i + 1 <= NT) {
-      int d = K[i + 1];
-      if (i + 1 < NT && (d == 1 || d == 2 || d == 3)) { depth++; i += 2; continue; }
-      if (i + 1 < NT && d == 6 && depth > 0) { depth--; i += 2; continue; }
-      if (i + 1 < NT && depth == 0 && (d == 4 || d == 5 || d == 6)) { want = i; break; }
-    }
+    if (hash_at(i) && i + 1 < NT && (K[i + 1] == 1 || K[i + 1] == 2 || K[i + 1] == 3)) { i = spec2(i + 2); continue; }
+    if (hash_at(i) && i + 1 < NT && (K[i + 1] == 4 || K[i + 1] == 5 || K[i + 1] == 6)) { want = i; break; }
     i++;
   }
   Token *r = skip_cond_incl(&T[0]);
